@@ -280,15 +280,22 @@ func (batch *Batch) readMessage(
 			//   to MaxBytes truncation
 			// - `batch.lastOffset` to ensure that the message format contains
 			//   `lastOffset`
-			if errors.Is(batch.err, io.EOF) && batch.msgs.lengthRemain == 0 && batch.lastOffset != -1 {
+			if errors.Is(batch.err, io.EOF) && batch.msgs.lengthRemain == 0 {
 				// Log compaction can create batches that end with compacted
 				// records so the normal strategy that increments the "next"
 				// offset as records are read doesn't work as the compacted
-				// records are "missing" and never get "read".
+				// records are "missing" and never get "read". The same goes
+				// for batches that were left empty by compaction and are
+				// retained by the broker: no record is ever read from them.
 				//
 				// In order to reliably reach the next non-compacted offset we
-				// jump past the saved lastOffset.
-				batch.offset = batch.lastOffset + 1
+				// jump past the last offset of the last batch of the response,
+				// which is taken from the batch header (and not from the last
+				// record read, there may be none). The offset never moves
+				// backwards.
+				if lastOffset, ok := batch.msgs.lastBatchOffset(); ok && lastOffset >= batch.offset {
+					batch.offset = lastOffset + 1
+				}
 			}
 		}
 	default:
